@@ -170,3 +170,19 @@ func c16SlowKey(err error) string {
 	}
 	return "slow:"
 }
+
+// c16WriteTag writes one tag with a guard that closes the connection when the write does not return
+// (a Write stuck in flow control must not hang the harness; Close releases it).
+func c16WriteTag(conn net.Conn, tag []byte, wait time.Duration) error {
+	var fired int32
+	g := time.AfterFunc(wait, func() { atomic.StoreInt32(&fired, 1); conn.Close() })
+	defer g.Stop()
+	n, err := conn.Write(tag)
+	if atomic.LoadInt32(&fired) == 1 {
+		return fmt.Errorf("c16: tag write timed out: %w", os.ErrDeadlineExceeded)
+	}
+	if err == nil && n != len(tag) {
+		return fmt.Errorf("c16: short tag write %d/%d", n, len(tag))
+	}
+	return err
+}
